@@ -38,6 +38,7 @@ static inline void vs_ext_insert(struct vs_astr name, struct vs_astr value)
     }
     g_ext_calls++;
 }
+unsigned long g_v; bool g_big, g_nondigit;     /* ghost of the Max-Age conversion (see AttributeMatcher<optional<int>>::match::strntol) */
 /* ghost: a scan for '=' ran into the end of the header text */
 bool g_no_eq;
 /* ghost: the attribute matched last was a flag (Secure/HttpOnly): whatever character follows the word is skipped */
@@ -115,22 +116,30 @@ FUNCTIONS = list(_s.FUNCTIONS) + [
         ensures COOKIE_EXC_OK && OLD(POS(cursor)) <= POS(cursor) && POS(cursor) <= LEN(cursor)
         ensures vs_exc == 0 ==> POS(cursor) >= OLD(POS(cursor)) + 1
         ensures vs_exc == 0 ==> (POS(cursor) == LEN(cursor) || BYTE(cursor, POS(cursor)) == ';')"""},
-    {'q': AM, 'sig': 'std::optional<int> Pistache::Http::Cookie::*', 'c': 'AttributeMatcher_int_match', 'contract': """
+    {'q': AM, 'sig': 'std::optional<int> Pistache::Http::Cookie::*', 'c': 'AttributeMatcher_int_match',
+     'ghost': [('AttributeMatcher_int_match__strntol', 'before', 'g_v = 0; g_big = 0; g_nondigit = 0;')], 'contract': """
         requires CUR_PRE(cursor) && FRESH(obj, sizeof(*obj)) && attr == offsetof(struct Pistache_Http_Cookie, maxAge) && vs_exc == 0
-        assigns POS(cursor), obj->maxAge, vs_exc, g_hit_end
+        assigns POS(cursor), obj->maxAge, vs_exc, g_hit_end, g_v, g_big, g_nondigit
         ensures COOKIE_EXC_OK && OLD(POS(cursor)) <= POS(cursor) && POS(cursor) <= LEN(cursor)
         ensures vs_exc == 0 ==> POS(cursor) >= OLD(POS(cursor)) + 1
-        # Max-Age: digits only, no overflow, never negative
-        ensures vs_exc == 0 ==> (obj->maxAge.has && obj->maxAge.v >= 0)
+        # Max-Age: digits only, no overflow, never negative; the number stored is the number written
+        ensures vs_exc == 0 ==> (obj->maxAge.has && obj->maxAge.v >= 0 && (unsigned long)obj->maxAge.v == g_v)
         ensures vs_exc == 0 ==> (POS(cursor) == LEN(cursor) || BYTE(cursor, POS(cursor)) == ';')"""},
-    {'q': AM + '::strntol', 'lambda': True, 'contract': """
-        requires len <= MAXLEN && FRESH(str, len) && vs_exc == 0
-        assigns vs_exc
+    {'q': AM + '::strntol', 'lambda': True,
+     # ghost: the number the digits read so far denote (g_v), "it exceeds INT_MAX" (g_big), "a character is no digit" (g_nondigit) -- computed
+     # in 64-bit arithmetic at the head of every iteration, independently of the guard in the code
+     'loop_ghost': {0: "{ char vs_c = str[i]; if (!g_nondigit && !g_big) { if (vs_c < '0' || vs_c > '9') g_nondigit = 1; else if (g_v * 10 + (unsigned long)(vs_c - '0') > 2147483647UL) g_big = 1; else g_v = g_v * 10 + (unsigned long)(vs_c - '0'); } }"},
+     'contract': """
+        requires len <= MAXLEN && FRESH(str, len) && vs_exc == 0 && g_v == 0 && !g_big && !g_nondigit
+        assigns vs_exc, g_v, g_big, g_nondigit
         ensures vs_exc == 0 || vs_exc == VS_EXC_INVALID_ARGUMENT
-        ensures vs_exc == 0 ==> RET >= 0""",
+        # C17 (Max-Age 0..INT_MAX): text made of digits only that denotes a number up to INT_MAX is accepted and yields exactly that number;
+        # anything else is refused -- never a wrapped value, never a refusal of a representable one
+        ensures IFF(vs_exc == 0, !g_big && !g_nondigit)
+        ensures vs_exc == 0 ==> (RET >= 0 && (unsigned long)RET == g_v)""",
      'loops': ["""
-        assigns i, ret, vs_exc
-        invariant i <= len && ret >= 0 && vs_exc == 0
+        assigns i, ret, vs_exc, g_v, g_big, g_nondigit
+        invariant i <= len && ret >= 0 && vs_exc == 0 && !g_big && !g_nondigit && g_v <= 2147483647UL && (unsigned long)ret == g_v
         decreases len - i"""]},
     {'q': AM, 'sig': 'bool Pistache::Http::Cookie::*', 'c': 'AttributeMatcher_bool_match'},
     {'q': AM, 'sig': 'std::optional<FullDate> Pistache::Http::Cookie::*', 'c': 'AttributeMatcher_date_match', 'contract': """
@@ -149,7 +158,7 @@ FUNCTIONS = list(_s.FUNCTIONS) + [
         ensures (vs_exc == 0 && RET) ==> ATTR_DONE(cursor)"""},
     {'q': MA, 'sig': 'std::optional<int> Pistache::Http::Cookie::*', 'c': 'match_attribute_int', 'contract': """
         requires CUR_PRE(cursor) && FRESH(obj, sizeof(*obj)) && len <= 16 && LIT_PRE(name, len) && attr == offsetof(struct Pistache_Http_Cookie, maxAge) && vs_exc == 0
-        assigns POS(cursor), obj->maxAge, vs_exc, g_hit_end, g_j
+        assigns POS(cursor), obj->maxAge, vs_exc, g_hit_end, g_j, g_v, g_big, g_nondigit
         ensures COOKIE_EXC_OK && OLD(POS(cursor)) <= POS(cursor) && POS(cursor) <= LEN(cursor)
         ensures (vs_exc == 0 && RET) ==> POS(cursor) >= OLD(POS(cursor)) + len
         ensures (vs_exc == 0 && !RET) ==> POS(cursor) == OLD(POS(cursor))
@@ -177,14 +186,14 @@ FUNCTIONS = list(_s.FUNCTIONS) + [
      'ghost': [('Pistache_skip_whitespaces', 'before', 'g_flag_last = 0;'), ('match_attribute_bool', 'after', 'if ($RET) g_flag_last = 1;')],
      'dead_ok': ['throw std::runtime_error("Invalid cookie, missing value");'], 'contract': """
         requires len <= MAXLEN && FRESH(str, len) && vs_exc == 0 && PTR_EQ(g_in, str) && g_in_len == len
-        assigns vs_exc, g_hit_end, g_j, g_app_src, g_flag_last, g_ext_calls
+        assigns vs_exc, g_hit_end, g_j, g_app_src, g_flag_last, g_ext_calls, g_v, g_big, g_nondigit
         # C17: malformed cookie text is rejected with an error, never a crash: every read lies in [str, str+len) (the text is an object of
         # exactly len bytes), the attribute loop terminates, and only std exceptions leave the function
         ensures COOKIE_EXC_OK
         # the name is the text before the first '=', the value starts right behind it
         ensures (vs_exc == 0 && RET.maxAge.has) ==> RET.maxAge.v >= 0""",
      'loops': ["""
-        assigns buf.vs_base_StreamBuf.pos, vs_exc, g_hit_end, g_j, g_app_src, g_flag_last, g_ext_calls, cookie, $HOISTED
+        assigns buf.vs_base_StreamBuf.pos, vs_exc, g_hit_end, g_j, g_app_src, g_flag_last, g_ext_calls, g_v, g_big, g_nondigit, cookie, $HOISTED
         invariant buf.vs_base_StreamBuf.pos <= buf.vs_base_StreamBuf.len && vs_exc == 0 && (cookie.maxAge.has ==> cookie.maxAge.v >= 0)
         # every attribute -- known or extension -- is consumed together with the ';' that ends it, so that the next attribute name starts
         # behind the separator and never with it (flags excepted: the character behind the word is skipped unseen)
